@@ -11,7 +11,7 @@ ID = "C03"
 LEVEL = "exploration"
 RULE = (
     "gen_prog programs (macro-free and with macros/nested macro calls, alias routines, labels at routine/file end, "
-    "cross-routine jumps, removed jumps) compiled with the ExplorerScript compiler; the same op lists printed as "
+    "cross-routine jumps, removed jumps, with-blocks around jumps / calls / control statements) compiled with the ExplorerScript compiler; the same op lists printed as "
     "SsbScript and compiled with the SsbScript compiler. Invariant on every result: offsets pairwise distinct over all "
     "routines; every op of a jump-carrying kind has an int last parameter that is the offset of an op in the result; no "
     "ES_* pseudo op / label object remains; the three tables have equal length. Non-trivial = result has >= 1 "
@@ -108,7 +108,7 @@ def ssbs_text(c):
 
 
 def strategy(tier):
-    return st.one_of(gen_prog.programs(max_stmts=40), gen_macro.macro_programs(single_file=True), ssbs_programs())
+    return st.one_of(gen_prog.programs(max_stmts=40, with_control=True), gen_macro.macro_programs(single_file=True, with_control=True), ssbs_programs())
 
 
 def invariant(comp, what, fails, text):
